@@ -378,9 +378,14 @@ let rand_answer r (e : encd) (depth : int) : answer =
 let () =
   register "c07.decode" ~doc:"Operation::parse: every opcode byte x boundary operand tails x encodings (exhaustive over the opcode byte), then random operand bytes"
     (fun ~seed ~n emit ->
-      List.iter (fun e -> for opc = 0 to 255 do List.iter (fun t -> decode_case emit e (opc :: t)) decode_tails done) main_encs;
-      List.iter (fun e -> for opc = 0 to 255 do List.iter (fun t -> decode_case emit e (opc :: t))
-        [ []; [1; 2; 3; 4; 5; 6; 7; 8; 9; 10; 11; 12]; [3; 0xaa; 0xbb; 0xcc; 0xdd]; [0x80; 0x01] ] done) odd_encs;
+      let few_tails = [ []; [1; 2; 3; 4; 5; 6; 7; 8; 9; 10; 11; 12]; [3; 0xaa; 0xbb; 0xcc; 0xdd]; [0x80; 0x01]; [0xff; 0xff; 0xff; 0xff; 0xff; 0xff; 0xff; 0xff; 0xff; 0x02]; [0] ] in
+      let has_operands opc = Array.exists (fun x -> x = opc) operand_opcodes || (opc >= 0x70 && opc <= 0x8f) in
+      (* opcodes with operands: every tail x the full encoding product; the others (no operand / invalid): a few tails x 4 + 4 encodings *)
+      for opc = 0 to 255 do
+        if has_operands opc then List.iter (fun e -> List.iter (fun t -> decode_case emit e (opc :: t)) decode_tails) main_encs
+        else List.iter (fun e -> if e.ver = 5 && (e.f64 = e.be) then List.iter (fun t -> decode_case emit e (opc :: t)) few_tails) main_encs;
+        List.iter (fun e -> List.iter (fun t -> decode_case emit e (opc :: t)) few_tails) odd_encs
+      done;
       decode_case emit (List.hd main_encs) [];
       let r = mk_rng seed in
       for _ = 1 to n do
@@ -463,8 +468,8 @@ let () =
         let m = p2 (8 * asz) in
         let cst z = (match asz with 1 -> [0x08] | 2 -> [0x0a] | 4 -> [0x0c] | _ -> [0x0e]) @ fixed c.e.be asz z in
         let preludes = [ [], (if thorough then 3 else 2);
-                         [0x33] @ cst (Z.pred m) @ [0x31], (if thorough then 4 else 3);
-                         cst (Z.succ (Z.shift_right m 1)) @ [0x32; 0x09; 0xfe], 3 ] in
+                         [0x33] @ cst (Z.pred m) @ [0x31], (if thorough && asz = 4 then 4 else 3);
+                         cst (Z.succ (Z.shift_right m 1)) @ [0x32; 0x09; 0xfe], (if thorough then 3 else 2) ] in
         List.iter (fun (pre, maxlen) ->
           eval_case emit c pre [];
           let rec go len prefix =
